@@ -16,7 +16,7 @@ import (
 var ghostBuiltins = map[string]bool{
 	"requires": true, "domain": true, "ensures": true, "ensuresGoal": true, "ensuresTrusted": true, "assert": true, "assume": true, "imp": true, "iff": true, "old": true,
 	"forall": true, "exists": true, "forallIn": true, "existsIn": true, "forallStr": true, "modifiesTail": true, "modifiesElems": true, "modifiesPtr": true, "modifiesAll": true, "modifiesMap": true,
-	"freshSlice": true, "sameBase": true, "sameArray": true, "suffixOf": true, "viewOf": true, "offsetIn": true, "disjointFromTail": true, "bytesEq": true, "strBytesEq": true, "allocated": true, "sameOrDisjoint": true, "unchangedElems": true, "identical": true,
+	"freshSlice": true, "sameBase": true, "sameArray": true, "suffixOf": true, "viewOf": true, "offsetIn": true, "disjointFromTail": true, "bytesEq": true, "strBytesEq": true, "allocated": true, "sameOrDisjoint": true, "unchangedElems": true, "identical": true, "arg": true,
 	"covers": true,
 }
 
@@ -137,6 +137,7 @@ func (c *VC) shouldInline(fi *FuncInfo) bool {
 }
 
 func (c *VC) evalCall(st *State, call *ast.CallExpr) []*Term {
+	c.callSiteAsserts(st, call)
 	rs := c.evalCall1(st, call)
 	if c.pendErr != nil && c.ghost == 0 && len(c.frames) == 1 {
 		if pend, ok := st.env[c.pendErr]; ok {
@@ -1379,6 +1380,35 @@ func (c *VC) inlineLit(st *State, lit *ast.FuncLit, call *ast.CallExpr) []*Term 
 		}
 	}
 	return vals
+}
+
+// callSiteAsserts: `//@ callsite f: e` on the contract of the function under verification states
+// that e (over the caller's variables) holds immediately before every call whose callee reads f.
+func (c *VC) callSiteAsserts(st *State, call *ast.CallExpr) {
+	if c.ghost > 0 || len(c.frames) != 1 {
+		return
+	}
+	d := c.fn.Dir
+	if c.fn.Contract != nil {
+		d = c.fn.Contract.Dir
+	}
+	if d == nil || len(d.CallSites) == 0 {
+		return
+	}
+	text := exprText(c.prog.fset, call.Fun)
+	for _, cs := range d.CallSites {
+		if cs.Callee != text {
+			continue
+		}
+		c.siteCall, c.siteState = call, st
+		t, err := c.evalDirective(st, cs.Expr, call.Pos())
+		c.siteCall, c.siteState = nil, nil
+		if err != nil {
+			c.prog.errors = append(c.prog.errors, fmt.Sprintf("CONTRACT-STALE %s callsite %s %q: %v", c.fn.Name, cs.Callee, cs.Expr, err))
+			continue
+		}
+		c.addObl("callsite", cs.Callee+": "+cs.Expr, call.Pos(), st.pc, t)
+	}
 }
 
 func (c *VC) pureFuncValues() bool {
